@@ -277,7 +277,6 @@ pub fn shard(tier: Tier, i: usize, n: usize, private_net: bool) -> i32 {
         return 77;
     }
     let cases = all_cases(tier);
-    let rt = e4::runtime(2);
     let t0 = std::time::Instant::now();
     let budget = std::time::Duration::from_secs(match tier { Tier::Quick => 120, Tier::Thorough => 1500 });
     let mut failing = 0;
@@ -290,7 +289,17 @@ pub fn shard(tier: Tier, i: usize, n: usize, private_net: bool) -> i32 {
             skipped += 1;
             continue;
         }
-        let viol = rt.block_on(run_sequence(*ty, seq));
+        let (ty2, seq2) = (*ty, seq.clone());
+        let Some(viol) = e4::block_on_deadline(2, e4::CASE_DEADLINE, move || async move { run_sequence(ty2, &seq2).await }) else {
+            let names: Vec<&str> = seq.iter().map(|o| OPS[*o as usize]).collect();
+            println!("{}", json!({"case": k, "findings": [["runtime-hung", format!("{} socket, operations {:?}: the sequence did not come back within {} s although every wait in it has a {} s horizon: a thread of the socket's runtime is blocked for ever", ty.name(), names, e4::CASE_DEADLINE.as_secs(), e4::HORIZON.as_secs())]]}));
+            let rest = cases.iter().enumerate().filter(|(j, _)| j % n == i && *j > k).count() as u64;
+            println!("{}", json!({"skipped": rest + skipped, "after_failures": failing + 1, "budget_exhausted": false}));
+            use std::io::Write;
+            let _ = std::io::stdout().flush();
+            e4::cleanup_ipc_dir();
+            std::process::exit(0);
+        };
         if !viol.is_empty() {
             failing += 1;
         }
